@@ -297,7 +297,7 @@ func c09Wire(run *evid.Run, cfg Cfg) {
 	}
 	port := rig.FreePort("127.0.0.1")
 	d, err := rig.PrepareDaemon(rig.DaemonOpts{Dir: cfg.Dir("c09-wire"), ID: 1, IP: "127.0.0.1", Port: port, CA: ca,
-		Peers: map[uint64]string{1: fmt.Sprintf("127.0.0.1:%d", port)}, Permissions: map[string]map[string][]string{"client1": perms}, NDWallets: nd})
+		Peers: map[uint64]string{1: fmt.Sprintf("127.0.0.1:%d", port)}, Permissions: map[string]map[string][]string{"client1": perms}, NDWallets: nd, Race: true})
 	if err != nil {
 		run.Inconclusive("cannot prepare daemon: " + err.Error())
 		return
@@ -358,4 +358,5 @@ func c09Wire(run *evid.Run, cfg Cfg) {
 	if !d.Alive() {
 		run.Violate("the daemon died while signing large batches: "+firstPanicLine(d.LogTail(20000)), nil)
 	}
+	daemonRaceReports(run, d, "large batches spread over the signer's workers")
 }
